@@ -73,10 +73,18 @@ partial def exprOf (j : Json) : Except String Expr :=
       | .str "(", .str ")" => do pure (.paren (← exprOf b))
       | _, _ => do pure (.bin (← getStr b) (← exprOf l) (← exprOf r))
 
+def segOf (s : String) : Seg :=
+  if s.startsWith "[" && s.endsWith "]" then .idx (String.ofList ((s.toList.drop 1).dropLast)) else .name s
+
+def segStr : Seg → String
+  | .name a => a
+  | .idx v => "[" ++ v ++ "]"
+  | .idxNum k => "[" ++ toString k ++ "]"
+
 def paramOf (j : Json) : Except String Param :=
   match j with
   | .str s => pure (.var s)
-  | .arr a => do pure (.path (← a.toList.mapM getStr))
+  | .arr a => do pure (.path ((← a.toList.mapM getStr).map segOf))
   | .obj _ => do pure (.lit (← getStr (← field j "lit")) (← valOf (← field j "json")))
   | _ => jerr "param"
 
@@ -127,7 +135,7 @@ partial def valJson : Val → Json
 
 def paramJson : Param → Json
   | .var x => Json.arr #[.str "v", .str x]
-  | .path p => Json.arr #[.str "p", Json.arr (p.map Json.str).toArray]
+  | .path p => Json.arr #[.str "p", Json.arr (p.map (fun g => Json.str (segStr g))).toArray]
   | .lit s v => Json.arr #[.str "s", .str s, valJson v]
 
 def kindStr : Kind → String
